@@ -29,6 +29,7 @@ def absStep (a : Abs) : Op → Abs
   | .decode .data _ => { a with dec := false }
   | .assertValid => { a with asserted := a.ver }
   | .lookupPeer => { a with look := a.auth }
+  | .orLookupByAddr => { a with look := false }     -- the peer may now be whoever sits at the source address
   | _ => a
 
 def guardedFrom : Abs → List Op → Bool
@@ -177,6 +178,16 @@ theorem inv_step {E : Env P} {data : Bytes} {a : Abs} {r r' : Regs P} {op : Op}
         exact ⟨kb', v, rem, by first | rfl | exact ha, h2, h3, h4⟩
       · intro _
         exact ⟨kb, by first | rfl | exact ha, rfl⟩
+  | orLookupByAddr =>
+    simp only [step] at hs
+    split at hs
+    · cases hs
+    · simp at hs
+      subst hs
+      exact ⟨i1, i2, i3, i4, i5, i6, i7, by simp [absStep], i9⟩
+    · simp at hs
+      subst hs
+      exact ⟨i1, i2, i3, i4, i5, i6, i7, by simp [absStep], i9⟩
   | appendData =>
     simp only [step] at hs
     simp at hs
@@ -262,6 +273,7 @@ theorem runFrom_guarded_called {E : Env P} {data k : Bytes} {p : P} {wd : Option
       | decode src off => simp only [step] at hs; (repeat' split at hs) <;> simp at hs
       | assertValid => simp only [step] at hs; (repeat' split at hs) <;> simp at hs
       | lookupPeer => simp only [step] at hs; (repeat' split at hs) <;> simp at hs
+      | orLookupByAddr => simp only [step] at hs; (repeat' split at hs) <;> simp at hs
       | appendData => simp [step] at hs
       | callAddr => simp only [step] at hs; (repeat' split at hs) <;> simp at hs
       | callAddrData => simp only [step] at hs; (repeat' split at hs) <;> simp at hs
@@ -313,6 +325,7 @@ theorem runFrom_guarded_returned {E : Env P} {data kb : Bytes} {p : P} :
       | decode src off => simp only [step] at hs; (repeat' split at hs) <;> simp at hs
       | assertValid => simp only [step] at hs; (repeat' split at hs) <;> simp at hs
       | lookupPeer => simp only [step] at hs; (repeat' split at hs) <;> simp at hs
+      | orLookupByAddr => simp only [step] at hs; (repeat' split at hs) <;> simp at hs
       | appendData => simp [step] at hs
       | callAddr => simp only [step] at hs; (repeat' split at hs) <;> simp at hs
       | callAddrData => simp only [step] at hs; (repeat' split at hs) <;> simp at hs
